@@ -2,6 +2,7 @@ SPECIFICATION SpecInterleave
 INVARIANT ReadsValid
 INVARIANT RaceFree
 INVARIANT OutputsMapped
+INVARIANT ResultApartFromOperands
 INVARIANT LevelsPartition
 INVARIANT Pinned
 INVARIANT WithinCLen
